@@ -119,6 +119,7 @@ def run(chk: Check, proj: Project) -> None:
     s1a_nodes(chk, proj, w, reach)
     s1a_reentrant(chk, proj, w)
     s1a_parsed_values(chk, proj, w)
+    s1a_lock_statements(chk, proj, w)
     s1i_shared_instances(chk, proj, w)
     from . import C18
 
@@ -600,6 +601,36 @@ def s1i_shared_instances(chk: Check, proj: Project, w) -> None:
         else:
             chk.violated("S1-I", key, owner.get(attr, m).loc(site), f"`{short(enclosing_stmt(site))}` keeps per-render state on the component object, and as_view() shares one object between all request threads: two requests whose renders overlap read each other's `self.input` / `self.id` / inject() context")
     chk.floor("S1-I", n, 1)
+
+
+def s1a_lock_statements(chk: Check, proj: Project, w) -> None:
+    chk.rule("S1-A7", "a lock taken with an explicit `.acquire()` statement is released in a `finally` (or taken with `with`): an exception between acquire and release - a TemplateSyntaxError while compiling - leaves the lock held by a long-lived worker thread and every other thread blocks for good; and nothing but a real value is ever stored under a key that readers test for presence (an `add(key, <placeholder>)` reservation is visible as an EMPTY script to a thread that renders in between)")
+    n = 0
+    for m, q, f in proj.all_funcs():
+        for st in stmts(f):
+            if isinstance(st, ast.Expr) and isinstance(st.value, ast.Call) and isinstance(st.value.func, ast.Attribute) and st.value.func.attr == "acquire":
+                n += 1
+                lock = norm(st.value.func.value)
+                blk = next((getattr(st.parent, fld) for fld in ("body", "orelse", "finalbody") if isinstance(getattr(st.parent, fld, None), list) and st in getattr(st.parent, fld)), [])  # type: ignore[attr-defined]
+                nxt = blk[blk.index(st) + 1] if st in blk and blk.index(st) + 1 < len(blk) else None
+                ok = isinstance(nxt, ast.Try) and any(isinstance(x, ast.Call) and isinstance(x.func, ast.Attribute) and x.func.attr == "release" and norm(x.func.value) == lock for fb in nxt.finalbody for x in ast.walk(fb))
+                inside_try = any(isinstance(a, ast.Try) and any(isinstance(x, ast.Call) and isinstance(x.func, ast.Attribute) and x.func.attr == "release" and norm(x.func.value) == lock for fb in a.finalbody for x in ast.walk(fb)) for a in ancestors(st))
+                chk.ob("S1-A7", f"{m.name.replace('django_components.', '')}:{q}:{lock}.acquire()", m.loc(st), ok or inside_try,
+                       f"`{lock}.release()` is in the `finally` of the try that follows" if ok or inside_try else
+                       f"`{lock}.acquire()` is followed by code that can raise before `{lock}.release()` runs (no try / finally): after one failing compilation in a worker thread the lock is never freed and every render in every other thread hangs")
+    dm = proj.mod("dependencies")
+    for q, f in dm.funcs():
+        for c in [x for x in body_walk(f) if isinstance(x, ast.Call) and isinstance(x.func, ast.Attribute) and x.func.attr in ("add", "set", "set_many", "get_or_set") and len(x.args) >= 2]:
+            recv = x_ = norm(c.func.value)
+            is_cache = any(isinstance(v, ast.Call) and last_attr(v.func) == "get_component_media_cache" for _s, v in assignments(f, recv)) or "cache" in recv.lower()
+            if not is_cache:
+                continue
+            n += 1
+            const = isinstance(c.args[1], ast.Constant)
+            chk.ob("S1-A7", f"dependencies:{q}:{short(c, 40)}:stores-a-real-value", dm.loc(c), not const,
+                   "the value stored is computed from the script" if not const else
+                   f"`{short(c)}` puts the placeholder {c.args[1].value!r} under the script's key: between this reservation and the real `set` the entry EXISTS, so another thread's presence test succeeds and its page gets `<script></script>` with no code")
+    chk.floor("S1-A7", n, 1)
 
 
 def s1a_parsed_values(chk: Check, proj: Project, w) -> None:
